@@ -18,7 +18,8 @@ from .. import monitor
 PROP = "C13"
 RULE = ("cases: 1-D (axis=None), 2-D on both axes, N-D flattened, 3-D batches with axis=0 (the configurator's use; result[b] must be "
         "the 2-D result of slice b); ties, negative entries, all-zero rows and columns, up to 60 distinct levels, values up to 1e6. "
-        "non-trivial: >=2 distinct non-zero keys; distinct by digest of (method, axis, array)")
+        "non-trivial: >=2 distinct non-zero keys; distinct by digest of (method, axis, array)"
+        ' Also: several compressions of one array object (the input must be unchanged), up to 63 levels judged (top weight < 2**63), neighbours above 2**53.')
 BUDGET = {"quick": (12, 1000, 90), "thorough": (16, 8000, 1200)}
 METHODS = ["shadow", "prio", "rank", "first", "last", "min", "max"]
 PYTEST = True     # thorough tier also runs the repository's own tests under these monitors
